@@ -16,10 +16,10 @@ vars == <<cmd, opts, expr, doc, phase, exit, stderrLines, traceback, wrote>>
 Cmds == {"path", "pointer", "patch"}
 \* expression classes per sub-command; "ok*" classes succeed, the others name the library error
 ExprClasses(c) ==
-  CASE c = "path" -> {"ok", "ok-filter", "ok-escape", "ok-empty-result", "ok-empty-query", "ok-union", "ok-intersection", "ok-multiline", "syntax", "type", "name", "index", "illtyped-only-when-checked", "unterminated", "bad-regex"}
+  CASE c = "path" -> {"ok", "ok-filter", "ok-escape", "ok-empty-result", "ok-empty-query", "ok-union", "ok-intersection", "ok-multiline", "huge-literal", "syntax", "type", "name", "index", "illtyped-only-when-checked", "unterminated", "bad-regex"}
     [] c = "pointer" -> {"ok", "ok-root", "ok-escape", "ok-uri", "ok-nonascii", "unresolvable-key", "unresolvable-index", "into-scalar", "no-leading-slash"}
     [] c = "patch" -> {"ok", "ok-root", "ok-empty", "ok-escape", "non-object-member", "test-fails", "missing-target", "not-an-array", "malformed-json", "unknown-op", "missing-member", "bad-pointer", "undecodable"}
-DocClasses == {"object", "array", "malformed", "malformed-scalar", "undecodable", "empty-file"}
+DocClasses == {"object", "array", "object-utf16", "object-utf8-bom", "malformed", "malformed-scalar", "undecodable", "empty-file"}
 
 OptSet(c) == [debug : BOOLEAN, pretty : BOOLEAN, nue : BOOLEAN,                    \* global options
               inline : IF c = "patch" THEN {FALSE} ELSE BOOLEAN,                   \* expression inline or from a file
@@ -28,7 +28,7 @@ OptSet(c) == [debug : BOOLEAN, pretty : BOOLEAN, nue : BOOLEAN,                 
 
 \* does the library accept / resolve / apply the expression under these options?
 ExprFails(c, e, o) ==
-  CASE c = "path" -> e \in {"syntax", "type", "name", "index", "unterminated", "bad-regex"} \/ (e = "illtyped-only-when-checked" /\ ~o.flag)
+  CASE c = "path" -> e \in {"syntax", "type", "name", "index", "unterminated", "bad-regex", "huge-literal"} \/ (e = "illtyped-only-when-checked" /\ ~o.flag)
     [] c = "pointer" -> e \in {"unresolvable-key", "unresolvable-index", "into-scalar", "no-leading-slash"}
     [] c = "patch" -> e \notin {"ok", "ok-root", "ok-empty", "ok-escape"}
 DocFails(dd) == dd \in {"malformed", "malformed-scalar", "undecodable", "empty-file"}
@@ -37,7 +37,7 @@ Init == /\ cmd \in Cmds
         /\ opts \in OptSet(cmd)
         /\ expr \in ExprClasses(cmd)
         /\ doc \in DocClasses
-        /\ (opts.stdin => doc # "undecodable")          \* standard input is text in the harness
+        /\ (opts.stdin => doc \notin {"undecodable", "object-utf16", "object-utf8-bom"})          \* standard input is text in the harness
         /\ phase = "args"
         /\ exit = 99 /\ stderrLines = 0 /\ traceback = FALSE /\ wrote = FALSE
 
